@@ -42,7 +42,9 @@ class _Loop:
 
 
 class CFG:
-    def __init__(self, fnode):
+    def __init__(self, fnode, body=None):
+        """fnode: FunctionDef, or None with `body` = a statement list (e.g. a loop body, where
+        `continue` / `break` leave through the normal exit)."""
         self.fnode = fnode
         self.nodes: list[Node] = []
         self.succ: dict[int, list] = {}
@@ -54,7 +56,7 @@ class CFG:
         self._loops: list[_Loop] = []
         self._handlers: list[list] = []  # stack of lists of (handler node id, type src)
         self._try_nodes: list[list] = []
-        fr = self._seq(fnode.body, [(self.entry, None)])
+        fr = self._seq(body if body is not None else fnode.body, [(self.entry, None)])
         self._connect(fr, self.exit)  # falling off the end
 
     # ---- construction -----------------------------------------------------
@@ -214,12 +216,16 @@ class CFG:
             n = self._new("stmt", s)
             self._connect(frontier, n.id)
             if not self._loops:
-                raise AnalysisError("break outside loop")
+                self._edge(n.id, self.exit, ("break", s, True))
+                return []
             self._loops[-1].breaks.append((n.id, None))
             return []
         if isinstance(s, ast.Continue):
             n = self._new("stmt", s)
             self._connect(frontier, n.id)
+            if not self._loops:
+                self._edge(n.id, self.exit, ("continue", s, True))
+                return []
             self._edge(n.id, self._loops[-1].head, None)
             return []
         if isinstance(s, getattr(ast, "Match", ())):
